@@ -162,6 +162,11 @@ int main(int argc, char* const* argv)
     Item privkey;
     secp256k1_keypair keypair;
     bech32_hrp = ca.m.count('p') ? ca.m['p'] : DEFAULT_ADDR_PREFIX;
+    // BIP173: the human readable part is 1..83 US-ASCII characters in [33,126]; the encoder insists on lower case (it asserts)
+    if (bech32_hrp.size() < 1 || bech32_hrp.size() > 83) abort("invalid address prefix: must be 1..83 characters");
+    for (unsigned char c : bech32_hrp) {
+        if (c < 33 || c > 126 || (c >= 'A' && c <= 'Z')) abort("invalid address prefix: only lower case printable ASCII characters are allowed");
+    }
 
     bool have_txs = false;
     if (ca.m.count('x') + ca.m.count('i') == 1) abort("provide either both --txin and --tx, or neither");
